@@ -5,12 +5,17 @@ TraceLog == ndJsonDeserialize(IOEnv.TRACE_FILE)
 VARIABLE tid
 R(t) == TraceLog[t]
 \* accepted <=> the user function ran; rejected => a Client-family fault and no user code
-Verdict(t) == IF R(t).valid THEN R(t).obs.ran /\ ~R(t).obs.fault
+Verdict(t) == IF "ran" \notin DOMAIN R(t).obs THEN TRUE ELSE IF R(t).valid THEN R(t).obs.ran /\ ~R(t).obs.fault
               ELSE ~R(t).obs.ran /\ R(t).obs.fault /\ R(t).obs.client
 \* C06: the schema validator reaches the same verdict as the soft validator (and as Valid)
 SchemaAgrees(t) == "lxml" \notin DOMAIN R(t).obs \/ R(t).obs.lxml = R(t).valid
+\* ... and as the soft validator on the same request (for every constraint both implement)
+ValidatorsAgree(t) == "lxml" \notin DOMAIN R(t).obs \/ R(t).obs.lxml = R(t).obs.ran
+\* C06: what Spyne wrote for a conformant value is valid against the schema it publishes
+EmittedOk(t) == "emitted" \notin DOMAIN R(t).obs \/ R(t).obs.emitted
 Fails(t) == (IF Verdict(t) THEN {} ELSE {IF R(t).valid THEN "RejectedValid" ELSE "AcceptedInvalid"})
-            \cup (IF SchemaAgrees(t) THEN {} ELSE {"SchemaDisagrees"})
+            \cup (IF SchemaAgrees(t) THEN {} ELSE {"SchemaDisagrees"}) \cup (IF EmittedOk(t) THEN {} ELSE {"EmittedInvalid"})
+            \cup (IF ValidatorsAgree(t) THEN {} ELSE {"ValidatorsDisagree"})
 Init == tid \in 1..Len(TraceLog)
 Next == UNCHANGED tid
 Report == PrintT(<<"V", tid, Fails(tid)>>)
